@@ -4,6 +4,7 @@ import ArcSwapModel.AutoTraits
 import ArcSwapModel.SerdeM
 import ArcSwapModel.CacheM
 import ArcSwapModel.AccessM
+import ArcSwapModel.SpecDriver
 open M
 
 /-- `driver <exec-file>`: replays every execution of the file on `M`. -/
@@ -60,6 +61,14 @@ def main (args : List String) : IO UInt32 := do
     let text ← IO.FS.readFile path
     for l in text.splitOn "\n" do
       if l.startsWith "shape=" then IO.println (AccessM.predict l)
+    return 0
+  | ["spec", path] =>
+    let text ← IO.FS.readFile path
+    for l in text.splitOn "\n" do
+      if l.startsWith "prog " then IO.println l
+      else if l.startsWith "ops " then
+        for o in Spec.runLine (l.drop 4).toString do IO.println o
+        IO.println "endprog"
     return 0
   | ["autotraits"] =>
     for l in AutoTraits.tableLines do IO.println l
